@@ -3,9 +3,11 @@ package main
 import (
 	"bytes"
 	"encoding/json"
+	"fmt"
 	"math/rand"
 	"time"
 
+	"github.com/dgraph-io/badger/v3"
 	"github.com/go-logr/logr"
 	"github.com/klauspost/compress/s2"
 	"github.com/pckhoi/meow"
@@ -14,6 +16,8 @@ import (
 	"github.com/wrgl/wrgl/pkg/encoding/packfile"
 	"github.com/wrgl/wrgl/pkg/misc"
 	"github.com/wrgl/wrgl/pkg/objects"
+	objbadger "github.com/wrgl/wrgl/pkg/objects/badger"
+	objmock "github.com/wrgl/wrgl/pkg/objects/mock"
 )
 
 func init() {
@@ -34,6 +38,13 @@ type c06Input struct {
 	Spec   *TableSpec `json:"spec,omitempty"`
 	// store histories (op "savehist") and refreshes of derived objects over an existing state (op "refresh")
 	Ops       []c06StoreOp `json:"ops,omitempty"`
+	// which objects.Store the history runs on: "mem" (the harness's map, default), "mock" (objmock),
+	// "badger" (objbadger.Store), "txn" (objbadger.Txn: staged, committed by the "commit" ops and at the end)
+	Store string `json:"store,omitempty"`
+	// the caller serialises every object into ONE buffer and hands SaveBlock / SaveBlockIndex the
+	// compression buffer they gave back, as every caller in the code base does; it goes on writing into
+	// both as soon as a Save* has returned
+	Reuse bool `json:"reuse,omitempty"`
 	// a table profile value (op "profileobj")
 	Profile *c06ProfileObj `json:"profile,omitempty"`
 	Mode      string       `json:"mode,omitempty"`
@@ -393,7 +404,28 @@ func runC06(ctx *Ctx) {
 		if resaved {
 			tags = append(tags, "same-content-saved-again")
 		}
-		ctx.Emit("savehist", c06Input{Ops: ops}, c06SaveHist(ops), rekeyed || resaved, tags...)
+		// the store implementation and the caller's buffer discipline (drawn after the history)
+		in := c06Input{Store: []string{"mem", "mock", "badger", "txn", "txn", "txn"}[r.Intn(6)], Reuse: r.Intn(4) != 0}
+		if in.Store == "txn" && r.Intn(2) == 0 {
+			// partial commits somewhere inside the history
+			var withCommits []c06StoreOp
+			for i, op := range ops {
+				withCommits = append(withCommits, op)
+				if i+1 < len(ops) && r.Intn(3) == 0 {
+					withCommits = append(withCommits, c06StoreOp{Op: "commit"})
+				}
+			}
+			if len(withCommits) > len(ops) {
+				tags = append(tags, "partial-commit")
+			}
+			ops = withCommits
+		}
+		in.Ops = ops
+		tags = append(tags, "store-"+in.Store)
+		if in.Reuse {
+			tags = append(tags, "caller-reuses-its-buffers")
+		}
+		ctx.Emit("savehist", in, c06SaveHist(in.Ops, in.Store, in.Reuse), rekeyed || resaved, tags...)
 		return
 	}
 	if ctx.Idx%64 == 31 {
@@ -553,7 +585,7 @@ func corpusC06(ctx *Ctx, op string, raw json.RawMessage) {
 			ctx.Emit(op, in, c06Profile(in.Spec), true, "corpus")
 		}
 	case "savehist":
-		ctx.Emit(op, in, c06SaveHist(in.Ops), true, "corpus")
+		ctx.Emit(op, in, c06SaveHist(in.Ops, in.Store, in.Reuse), true, "corpus")
 	case "refresh":
 		if in.Spec != nil {
 			ctx.Emit(op, in, c06Refresh(in.Spec, in.Mode, in.StaleSpec), true, "corpus")
@@ -572,7 +604,7 @@ func corpusC06(ctx *Ctx, op string, raw json.RawMessage) {
 // here with meow directly and handed over as "digests" (one per operation).
 
 type c06StoreOp struct {
-	Op      string `json:"op"`   // save | delete
+	Op      string `json:"op"`   // save | delete | commit (transactional store: staged operations reach the database)
 	Kind    string `json:"kind"` // block | blockindex | table | tableindex | commit | profile
 	Sum     string `json:"sum,omitempty"`     // hex: table sum (save of tableindex/profile), identifier to delete
 	Content string `json:"content,omitempty"` // hex
@@ -585,6 +617,74 @@ type c06StepObs struct {
 	Exists bool    `json:"exists"` // <Kind>Exist after the step
 	Stored *string `json:"stored"` // bytes under the key after the step (s2-decoded for block, block index)
 	Typed  *string `json:"typed"`  // save of a well-formed object: typed Get* of the key, re-encoded
+	// commit step of a transactional history: what the database holds afterwards, read from outside the transaction
+	Committed [][]string `json:"committed"`
+}
+
+// c06HistStore is the store a history runs on: `db` is what Save* / Get* / Delete* go through.
+type c06HistStore struct {
+	kind string
+	db   objects.Store
+	bdb  *badger.DB
+	txn  *objbadger.Txn
+}
+
+func c06OpenHistStore(kind string) (*c06HistStore, error) {
+	hs := &c06HistStore{kind: kind}
+	switch kind {
+	case "", "mem":
+		hs.db = NewMemStore()
+	case "mock":
+		hs.db = objmock.NewStore()
+	case "badger", "txn":
+		bdb, err := badger.Open(badger.DefaultOptions("").WithInMemory(true).WithLoggingLevel(badger.ERROR))
+		if err != nil {
+			return nil, err
+		}
+		hs.bdb = bdb
+		if kind == "txn" {
+			hs.txn = objbadger.NewTxn(bdb)
+			hs.db = hs.txn
+		} else {
+			hs.db = objbadger.NewStore(bdb)
+		}
+	default:
+		return nil, fmt.Errorf("unknown store %q", kind)
+	}
+	return hs, nil
+}
+
+// commit makes the staged operations of a transactional store reach the database.
+func (hs *c06HistStore) commit() error {
+	if hs.txn == nil {
+		return fmt.Errorf("store %q has no transactions", hs.kind)
+	}
+	return hs.txn.PartialCommit()
+}
+
+// outside is the database as a reader outside the transaction sees it.
+func (hs *c06HistStore) outside() objects.Store {
+	if hs.txn != nil {
+		return objbadger.NewStore(hs.bdb)
+	}
+	return hs.db
+}
+
+func (hs *c06HistStore) close() {
+	if hs.txn != nil {
+		hs.txn.Discard()
+	}
+	if hs.bdb != nil {
+		hs.bdb.Close()
+	}
+}
+
+// c06Scribble: the caller goes on using a buffer of its own (every byte of its capacity changes).
+func c06Scribble(b []byte) {
+	b = b[:cap(b)]
+	for i := range b {
+		b[i] ^= 0xa5
+	}
 }
 
 var c06Prefix = map[string]string{"block": "blk/", "blockindex": "blkidx/", "table": "tbl/", "tableindex": "tblidx/", "commit": "com/", "profile": "tblsum/"}
@@ -677,7 +777,7 @@ func c06Typed(db objects.Store, kind string, id []byte) (out *string) {
 	return strp(hx(b.Bytes()))
 }
 
-func c06DumpStore(db *MemStore) [][]string {
+func c06DumpStore(db objects.Store) [][]string {
 	all, _ := db.Filter(nil)
 	keys := make([]string, 0, len(all))
 	for k := range all {
@@ -691,39 +791,62 @@ func c06DumpStore(db *MemStore) [][]string {
 	return out
 }
 
-func c06SaveHist(ops []c06StoreOp) Res {
+func c06SaveHist(ops []c06StoreOp, store string, reuse bool) Res {
 	return Guard(func() Res {
-		db := NewMemStore()
+		hs, err := c06OpenHistStore(store)
+		if err != nil {
+			return Err("open-store")
+		}
+		defer hs.close()
+		db := hs.db
 		steps := []c06StepObs{}
 		digests := []string{}
+		// the caller's buffers (reuse): one serialisation buffer for every object, and the compression
+		// buffer that SaveBlock / SaveBlockIndex hand back for the next call
+		var callerBuf, bb []byte
 		for _, op := range ops {
 			content := unhx(op.Content)
 			id := unhx(op.Sum)
 			digest := meow.Checksum(0, content)
 			digests = append(digests, hx(digest[:]))
 			obs := c06StepObs{}
+			if op.Op == "commit" {
+				obs.Err = hs.commit() != nil
+				obs.Committed = c06DumpStore(hs.outside())
+				steps = append(steps, obs)
+				continue
+			}
 			var err error
 			var sum []byte
 			if op.Op == "save" {
 				if c06ByContent(op.Kind) {
 					id = digest[:]
 				}
+				arg := content
+				if reuse {
+					callerBuf = append(callerBuf[:0], content...)
+					arg = callerBuf
+				}
+				var dst []byte
 				switch op.Kind {
 				case "block":
-					sum, _, err = objects.SaveBlock(db, nil, content)
+					sum, dst, err = objects.SaveBlock(db, bb, arg)
 				case "blockindex":
-					sum, _, err = objects.SaveBlockIndex(db, nil, content)
+					sum, dst, err = objects.SaveBlockIndex(db, bb, arg)
 				case "table":
-					sum, err = objects.SaveTable(db, content)
+					sum, err = objects.SaveTable(db, arg)
 				case "commit":
-					sum, err = objects.SaveCommit(db, content)
+					sum, err = objects.SaveCommit(db, arg)
 				case "tableindex":
-					err = objects.SaveTableIndex(db, id, content)
+					err = objects.SaveTableIndex(db, id, arg)
 				case "profile":
-					err = objects.SaveTableProfile(db, id, content)
+					err = objects.SaveTableProfile(db, id, arg)
 				}
 				if sum != nil {
 					obs.Sum = strp(hx(sum))
+				}
+				if reuse && dst != nil {
+					bb = dst
 				}
 			} else {
 				switch op.Kind {
@@ -756,8 +879,19 @@ func c06SaveHist(ops []c06StoreOp) Res {
 				obs.Typed = c06Typed(db, op.Kind, id)
 			}
 			steps = append(steps, obs)
+			if reuse {
+				// Save* has returned: the buffers are the caller's again
+				c06Scribble(callerBuf)
+				c06Scribble(bb)
+			}
 		}
-		return Ok(map[string]interface{}{"steps": steps, "state": c06DumpStore(db), "digests": digests})
+		if hs.txn != nil {
+			// the transaction ends: everything staged reaches the database
+			if err := hs.txn.Commit(); err != nil {
+				return Err("commit")
+			}
+		}
+		return Ok(map[string]interface{}{"steps": steps, "state": c06DumpStore(hs.outside()), "digests": digests})
 	})
 }
 
@@ -765,6 +899,9 @@ func c06SaveHist(ops []c06StoreOp) Res {
 func c06HistoryShape(ops []c06StoreOp) (rekeyed, resaved bool) {
 	held := map[string]string{}
 	for _, op := range ops {
+		if op.Op == "commit" {
+			continue
+		}
 		id := op.Sum
 		if op.Op == "save" && c06ByContent(op.Kind) {
 			d := meow.Checksum(0, unhx(op.Content))
